@@ -528,6 +528,24 @@ pub fn gen_doscmint(r: &mut Rng, w: &mut Wallet, cx: &Ctx, hist: &SmtMapping<Cas
 }
 
 pub fn gen_faucet(r: &mut Rng, w: &mut Wallet, cx: &Ctx) -> Transaction {
+    // off mainnet a faucet may mint any denomination — occasionally two coins of a pool's liquidity token, each
+    // redeemable alone but not together (K-faucet-liq territory; exercises the withdrawal guard)
+    if r.chance(1, 12) && !cx.known_pools.is_empty() {
+        let kp = *r.pick(cx.known_pools);
+        if let Some(p) = cx.pools.get(&kp) {
+            let each = (p.liqs / 2 + 1 + r.below(3) as u128).min(1 << 120);
+            let k = w.spec_addr(CovSpec::StdNew(r.below(w.keys.len() as u64) as usize));
+            return Transaction {
+                kind: TxKind::Faucet,
+                inputs: vec![],
+                outputs: vec![out(k, each, kp.liq_token_denom()), out(k, each, kp.liq_token_denom()), out(k, 1_000_000, Denom::Mel), out(k, 1_000_000, Denom::Mel)],
+                fee: CoinValue(r.below(1 << 30) as u128 + 1_000_000),
+                covenants: vec![],
+                data: r.bytes(8).into(),
+                sigs: vec![],
+            };
+        }
+    }
     let n = 1 + r.below(3);
     let denoms = [Denom::Mel, Denom::Mel, Denom::Sym, Denom::Erg, Denom::NewCustom];
     let outs: Vec<CoinData> = (0..n)
@@ -539,6 +557,15 @@ pub fn gen_faucet(r: &mut Rng, w: &mut Wallet, cx: &Ctx) -> Transaction {
             };
             let k = w.spec_addr(CovSpec::StdNew(r.below(w.keys.len() as u64) as usize));
             let a = if r.chance(1, 4) { w.rand_addr(r, cx.height) } else { k };
+            // off mainnet a faucet may mint any denomination — occasionally a pool's liquidity token (K-faucet-liq)
+            if r.chance(1, 10) && !cx.known_pools.is_empty() {
+                let kp = r.pick(cx.known_pools);
+                let amount = match cx.pools.get(kp) {
+                    Some(p) => match r.below(3) { 0 => p.liqs / 2 + 1, 1 => p.liqs / 3, _ => 1 + r.u128() % (p.liqs.max(1)) },
+                    None => v,
+                };
+                return out(a, amount.min(1 << 120), kp.liq_token_denom());
+            }
             out(a, v, *r.pick(&denoms))
         })
         .collect();
